@@ -19,3 +19,13 @@ Lemma conversion_sets_pinned :
   format_string_conversions = [97; 114; 115]%N /\
   c_range_bounds = [c_limit].
 Proof. repeat split; reflexivity. Qed.
+
+(* the hand-written Signature of str.format in get_default_argspecs binds the
+   receiver positionally only, then *args and **kwargs — the parameter kinds
+   CPython exhibits (Gen/FormatSigs.v, regenerated on every run).  A keyword
+   argument called `self`, `args` or `kwargs` is therefore a field name. *)
+Require Import PV.Gen.FormatSigs.
+Lemma str_format_signature_pinned :
+  map snd str_format_params_src = str_format_kinds_cpython /\
+  str_format_kinds_cpython = [0; 2; 4]%N.
+Proof. split; reflexivity. Qed.
